@@ -45,11 +45,58 @@ func (m *Mutex) Unlock() {
 	}
 }
 
-// RWMutex: readers are scheduled like writers (exclusive), which is conservative for deadlocks and
-// leaves the happens-before edges of a real RWMutex in place for the race detector.
+// RWMutex keeps the happens-before edges of a real sync.RWMutex (readers are not ordered among each
+// other, so the race detector can see two readers racing on what they touch). For the scheduler a
+// reader is enabled while no writer owns the lock, a writer while nobody does.
 type RWMutex struct {
-	Mutex
+	rw      sync.RWMutex
+	w       Mutex // the scheduling identity of the write side (never really locked)
+	readers int
 }
 
-func (m *RWMutex) RLock()   { m.Lock() }
-func (m *RWMutex) RUnlock() { m.Unlock() }
+//go:norace
+func (m *RWMutex) VerifReaders() int { return m.readers }
+
+//go:norace
+func (m *RWMutex) verifAddReader(d int) { m.readers += d }
+
+// RWHooks is implemented by the scheduler in addition to Hooks.
+type RWHooks interface {
+	BeforeRLock(m *RWMutex)
+	AfterRUnlock(m *RWMutex)
+	BeforeWLock(m *RWMutex)
+	AfterWUnlock(m *RWMutex)
+}
+
+// W exposes the write-side identity to the scheduler.
+func (m *RWMutex) W() *Mutex { return &m.w }
+
+func (m *RWMutex) Lock() {
+	if h, ok := hook().(RWHooks); ok && h != nil {
+		h.BeforeWLock(m)
+	}
+	m.rw.Lock()
+}
+
+func (m *RWMutex) Unlock() {
+	m.rw.Unlock()
+	if h, ok := hook().(RWHooks); ok && h != nil {
+		h.AfterWUnlock(m)
+	}
+}
+
+func (m *RWMutex) RLock() {
+	if h, ok := hook().(RWHooks); ok && h != nil {
+		h.BeforeRLock(m)
+	}
+	m.rw.RLock()
+	m.verifAddReader(1)
+}
+
+func (m *RWMutex) RUnlock() {
+	m.verifAddReader(-1)
+	m.rw.RUnlock()
+	if h, ok := hook().(RWHooks); ok && h != nil {
+		h.AfterRUnlock(m)
+	}
+}
